@@ -94,7 +94,15 @@ func checkReuse(c Case) error {
 	var used encode.Encoder
 	used.HighResolutionCoordinates = c.AHi
 	ops.ApplyAll(&used, c.AOps)
-	used.Bytes()
+	{
+		// asking twice gives the same answer, also when the answer is an error
+		b1, e1 := used.Bytes()
+		b1 = append([]byte{}, b1...)
+		b2, e2 := used.Bytes()
+		if (e1 == nil) != (e2 == nil) || e1 != nil && e1.Error() != e2.Error() || !bytes.Equal(b1, b2) {
+			return harness.Violatef("c17/bytes-twice", "Bytes called twice after history A: first %d bytes and error %v, then %d bytes and error %v", len(b1), e1, len(b2), e2)
+		}
+	}
 	got, err := encodeB(&used, c)
 	if err != nil {
 		return harness.Violatef("c17/encoder-error-survives-reset", "after history A and Reset, encoding B fails: %v", err)
@@ -419,7 +427,12 @@ func TestReuse(t *testing.T) {
 			labels = append(labels, "A-raw-mutated-stream")
 		}
 		c.BViewBox = [4]ops.F32{-32, -32, 32, 32}
-		if rapid.Bool().Draw(t, "bvb") {
+		if rapid.IntRange(0, 9).Draw(t, "bvbflat") == 0 {
+			// a legal viewBox without height: whatever a Renderer makes of it, it makes the same
+			// of it after any history (pixels are not compared: the coordinates are not finite)
+			c.BViewBox = [4]ops.F32{-32, 5, 32, 5}
+			labels = append(labels, "B-has-a-viewbox-of-zero-height")
+		} else if rapid.Bool().Draw(t, "bvb") {
 			c.BViewBox = [4]ops.F32{-20, -10, 44, 30}
 		}
 		c.BPalette = ops.DefaultPalette()
